@@ -65,7 +65,11 @@ def run(chk, replay=None):
                 "case with its class; every case is replayed on real decoded transactions of Shelley..Dijkstra whose original "
                 "encoding is padded non-canonically (wide and indefinite heads, wide integers) and on common.CalculateMinFee; "
                 "a case is one (era, envelope, head, padding, a, b, fee, limit) tuple of the size slice, one (a, size, b, fee) "
-                "point of the arithmetic grid at 64-bit scale (per era), or one 64-bit class representative; all are non-trivial")
+                "point of the arithmetic grid at 64-bit scale (per era), or one 64-bit class representative; all are non-trivial. "
+                "The phase-2 flag is a dimension of the size slice and of the carriers of the arithmetic points: every "
+                "Alonzo..Conway transaction is also built with is_valid = false and "
+                "judged by the same verdicts (invariants FlagIrrelevant, FlagNeverHelps, FlagPaired); keys of flagged cases end "
+                "in :p2invalid")
     chk.assumptions = [
         "the arithmetic grid is replayed with a, b and the fee multiplied by 2^64/W (exact: invariant Homogeneous); 64-bit "
         "numbers that are no such multiples are classified with math/big by the spec's formula and judged by the class table",
@@ -77,13 +81,18 @@ def run(chk, replay=None):
         "minimum is still a disagreement; everywhere else the exact size and both directions are enforced",
         "the property is silent on a Dijkstra transaction that arrives with a four-element envelope (the repository "
         "subtracts the is_valid byte there on purpose): its fee size is observed and recorded, not judged",
+        "a flagged transaction (is_valid = false) is the unflagged one with the byte 0xf5 replaced by 0xf4 (no redeemer, no "
+        "collateral): the era's is_valid rule rejects it, which is not read - fee and size are phase-1 preconditions and "
+        "are observed at the rules themselves and at their entries of the rule list",
+        "for the silent Dijkstra four-element case the fee verdict is enforced where both readings of the size (length, "
+        "length - 1) give the same verdict (row field bothReadings), and only observed in between",
         "the rule list is observed entry by entry (only the fee / size error types and the entries named "
         "...FeeTooSmallUtxo / ...MaxTxSizeUtxo are read); the rest of the transaction is not made valid for the other rules",
     ]
     thorough = chk.tier != "quick"
     grid = "FeeThorough.cfg" if thorough else "Fee.cfg"
     full = "FeeFull8.cfg"          # W = 2^3, every (a, size, b, fee) as a state
-    cfgs = [grid, full] + (["FeeDefect.cfg"] if thorough else [])
+    cfgs = [grid, full] + (["FeeDefect.cfg", "FeeFlagDefect.cfg"] if thorough else [])
     res = _tlc(cfgs, timeout=560 if thorough else 150, workers=4 if thorough else None)
     for c in (grid, full):
         vlib.tlc_must_pass(res[c], c)
@@ -94,6 +103,11 @@ def run(chk, replay=None):
             raise vlib.MachineryError("FeeDefect.cfg: TLC did not refute invariant NeverWrapped with modular arithmetic "
                                       "enabled: %r" % (rd.violation or rd.error or "no error"))
         chk.extra["defect_model"] = "WrapDefect=TRUE refuted by TLC (invariant NeverWrapped)"
+        rf = res["FeeFlagDefect.cfg"]
+        if rf.ok or not rf.violation or "FlagIrrelevant" not in rf.violation:
+            raise vlib.MachineryError("FeeFlagDefect.cfg: TLC did not refute invariant FlagIrrelevant with the early return "
+                                      "for flagged transactions enabled: %r" % (rf.violation or rf.error or "no error"))
+        chk.extra["defect_model_flag"] = "FlagDefect=TRUE refuted by TLC (invariant FlagIrrelevant)"
 
     drv = vlib.go_build("c30")
     g, f = res[grid].dir, res[full].dir
@@ -109,6 +123,13 @@ def run(chk, replay=None):
     for name, d, fn in files:
         with open(os.path.join(d, fn)) as fh:
             counts[name] = sum(1 for line in fh if line.strip())
+    size_rows = vlib.read_ndjson(os.path.join(g, "size.ndjson"))
+    counts["size_flagged"] = sum(1 for r in size_rows if r.get("p2"))
+    carriers = vlib.read_ndjson(os.path.join(g, "carriers.ndjson"))
+    counts["carriers"] = len(carriers)
+    counts["carriers_flagged"] = sum(1 for r in carriers if r.get("p2"))
+    if not counts["size_flagged"] or not counts["carriers_flagged"]:
+        raise vlib.MachineryError("the TLC output has no flagged (is_valid = false) size case or carrier: %r" % counts)
     chk.extra["tlc_rows"] = counts
     vlib.run_driver(chk, drv, ["size", "all", os.path.join(g, "size.ndjson")], timeout=900)
     vlib.run_driver(chk, drv, ["arith", os.path.join(g, "arith.ndjson")], timeout=900)
